@@ -248,7 +248,11 @@ fn dce_block_with_live(
                 // If the type-switch binding variable is not used in any case/default
                 // blocks, drop the binding (switch x := e.(type) -> switch e.(type)).
                 let bind = bind.filter(|bname| {
-                    !(!cases_live_in.contains(bname) && !default_live_in.contains(bname))
+                    new_cases
+                        .iter()
+                        .map(|(_, blk)| blk)
+                        .chain(default_b.iter())
+                        .any(|blk| free_vars_in_block(blk).contains(bname))
                 });
                 add_uses_expr(&mut live, &expr);
                 live.extend(cases_live_in);
